@@ -13,8 +13,8 @@ from symtorch import runner  # noqa: E402
 EXIT_OK, EXIT_VIOLATION, EXIT_HARNESS = 0, 1, 3
 
 
-def task(prop, module, cls, time_limit=None, nvalidate=2, max_paths=20000, **cfg):
-    return dict(prop=prop, module=module, cls=cls, cfg=cfg, time_limit=time_limit, nvalidate=nvalidate, max_paths=max_paths)
+def task(PROP_, MODULE_, CLS_, time_limit=None, nvalidate=2, max_paths=20000, **cfg):
+    return dict(prop=PROP_, module=MODULE_, cls=CLS_, cfg=cfg, time_limit=time_limit, nvalidate=nvalidate, max_paths=max_paths)
 
 
 def src_hashes(files):
